@@ -161,13 +161,14 @@ class GLang:
             par = r.choice(bnames[:i]) if i and r.random() < 0.65 else None
             self.base.append((n, par))
         cn = ["F", "G", "K2"][: r.randint(1, 3)]
-        self.comp = [(n, (1 if n == "F" else r.randint(1, 2)), r.random() < 0.8) for n in cn]  # name, arity, covariant
+        self.comp = [(n, (1 if n == "F" else r.randint(1, 3 if n == "K2" else 2)), r.random() < 0.8)
+                     for n in cn]  # name, arity, covariant
         self.syn0 = []            # (name, type ast)
         self.syn1 = []            # (name, compound name, fixed second arg or None)
         if r.random() < 0.7:
             self.syn0.append(("S0", self.gen_ty(r, 1, noprod=False)))
         if r.random() < 0.6:
-            c = r.choice(self.comp)
+            c = r.choice([c for c in self.comp if c[1] <= 2])
             self.syn1.append(("S1", c[0], None if c[1] == 1 else self.gen_ty(r, 0)))
         self.tyid = {}
         for i, (n, _) in enumerate(self.base):
@@ -990,6 +991,53 @@ def random_string(r: random.Random, names) -> str:
     return "".join(r.choice(alpha) + r.choice(["", " ", " "]) for _ in range(n))
 
 
+# type strings: names of arity 0-3, `_`, Top, Bottom, `*`, brackets, commas
+
+TYPE_SYMBOLS = ["(", "(", ")", ")", ")", ",", ",", "*", "*", "_", "Top", "Bottom", " "]
+
+
+def type_text(r: random.Random, gl: GLang, depth=2) -> str:
+    """a well-formed type text (products, variables, redundant brackets)"""
+    ast = gl.gen_ty(r, depth, noprod=False, var=0.15)
+    rd = Renderer(r)
+    toks = rd.ty_in(ast)
+    out = ""
+    for i, t in enumerate(toks):
+        word = t not in "(),*"
+        if out and word and out[-1] not in "(),* ":
+            out += " "
+        out += t + (" " if r.random() < 0.2 else "")
+    return out
+
+
+def mutate_type(r: random.Random, s: str, names) -> str:
+    ins = ["(", ")", ")", ",", "*", "*", "_", "Top", ") *", ")) * ", ", " + r.choice(names) + ") * ", " * "] + list(names)
+    for _ in range(r.choice([1, 1, 2, 3])):
+        k = r.random()
+        marks = [i for i, c in enumerate(s) if c in "(),*"]
+        if k < 0.3 and marks:
+            i = r.choice(marks)                    # delete a bracket, comma or star
+            s = s[:i] + s[i + 1:]
+        elif k < 0.5 and marks:
+            i = r.choice(marks)                    # duplicate one
+            s = s[:i] + s[i] + s[i:]
+        elif k < 0.85:
+            i = r.randrange(len(s) + 1)
+            s = s[:i] + r.choice(ins) + s[i:]
+        else:
+            # unbalanced closing brackets, then a product
+            s = s + ")" * r.randint(1, 2) + " * " + r.choice(list(names) + ["_", "Top"])
+    return s
+
+
+def random_type_string(r: random.Random, names) -> str:
+    alpha = TYPE_SYMBOLS + list(names) * 2
+    return "".join(r.choice(alpha) + r.choice(["", " "]) for _ in range(r.choice([1, 2, 3, 4, 5, 6, 8, 10])))
+
+
+STAR_PROBES = ["{A}) * {B}", "{F}({A})) * {B}", "({A} * {B})) * {A}", "{A}, {B}) * {A}", "_ ) * _"]
+
+
 # ---------------------------------------------------------------------------
 # model evaluation
 
@@ -1198,12 +1246,62 @@ def parser_fuzz(rep: C.Report, rng: random.Random, n: int) -> dict:
             if len(s) > 400:
                 continue
             cases.append((rng.choice([0, 1, 2]), s))
-        tys = [s for _, s in cases if len(s) < 200]
+        tys = [s for _, s in cases if len(s) < 200][: per // 2]
+        # type texts: well-formed, mutated, random, and the `)`-then-`*` family
+        tnames = list(gl.tyid)
+        fmt2 = {"A": gl.base[0][0], "B": gl.base[1][0], "F": gl.comp[0][0]}
+        tprobe = [p.format(**fmt2) for p in STAR_PROBES]
+        tys += tprobe
+        ntys = 2 * per
+        while len(tys) < per // 2 + ntys:
+            k2 = rng.random()
+            if k2 < 0.2:
+                t = type_text(rng, gl, rng.choice([1, 2, 3]))
+            elif k2 < 0.75:
+                t = mutate_type(rng, type_text(rng, gl, rng.choice([1, 2, 2, 3])), tnames)
+            else:
+                t = random_type_string(rng, tnames)
+            if len(t) <= 200:
+                tys.append(t)
+        # ... a third of them also as the annotation of an expression
+        for t in tprobe + [t for t in tys[per // 2 + len(tprobe):] if rng.random() < 0.33]:
+            cases.append((rng.choice([0, 1]), rng.choice(["- : ", "-:", "1 : ", "(- : "]) + t))
         groups.append((gl, cases, tys))
-    res = model_eval(f"{rep.pid}_fuzz_{rep.tier}", groups)
-    counts = {"cases": 0, "type_cases": 0, "outcomes": {}, "undeclared": {}, "disagreements": 0,
-              "type_disagreements": 0, "token_disagreements": 0, "max_time_s": 0.0, "model_crash": 0}
+    # stored witnesses first (implementation only)
+    ncorpus = 0
     shown = set()
+    cdir = C.CORPUS / "C17"
+    for f in sorted(cdir.glob("parser_*.json")) if cdir.is_dir() else []:
+        d = json.loads(f.read_text())
+        glc = GLang.from_description(d["language"]).build()
+        for ts in d.get("type_strings", []):
+            ncorpus += 1
+            try:
+                glc.lang.parse_type(ts)
+            except Exception as ex:   # noqa: BLE001
+                if declared_family(glc, ex) is None:
+                    sig = f"{rep.pid}:parser:{crash_site(ex)}"
+                    if sig not in shown:
+                        shown.add(sig)
+                        rep.violation(f"parser_corpus_{f.stem}_{len(shown)}", {"kind": "corpus", "corpus_file": str(f),
+                            "string": ts, "language": d["language"], "call": "Language.parse_type(string)",
+                            "impl_info": crash_site(ex),
+                            "what": "Language.parse_type raised an exception outside the declared families"},
+                            has_input=True, signature=sig)
+        for es in d.get("strings", []):
+            ncorpus += 1
+            code, info, _, _, _ = impl_parse(glc, es, [None] * d.get("ninputs", 0))
+            if code == 99:
+                sig = f"{rep.pid}:parser:{info}"
+                if sig not in shown:
+                    shown.add(sig)
+                    rep.violation(f"parser_corpus_{f.stem}_{len(shown)}", {"kind": "corpus", "corpus_file": str(f),
+                        "string": es, "language": d["language"], "call": "Language.parse(string, *inputs)",
+                        "impl_info": info, "what": "Language.parse raised an exception outside the declared families"},
+                        has_input=True, signature=sig)
+    res = model_eval(f"{rep.pid}_fuzz_{rep.tier}", groups)
+    counts = {"corpus_cases": ncorpus, "cases": 0, "type_cases": 0, "outcomes": {}, "undeclared": {}, "disagreements": 0,
+              "type_disagreements": 0, "token_disagreements": 0, "max_time_s": 0.0, "model_crash": 0}
     ndis = 0
     for (gl, cases, tys), (pob, tok, tob) in zip(groups, res):
         for (ni, s), po, tk in zip(cases, pob, tok):
@@ -1253,6 +1351,9 @@ def parser_fuzz(rep: C.Report, rng: random.Random, n: int) -> dict:
             except Exception as ex:   # noqa: BLE001
                 c = declared_family(gl, ex)
                 icode, iobs = (c if c is not None else 99), (crash_site(ex) if c is None else type(ex).__name__)
+            tname = CODENAME.get(icode, "undeclared") if icode != 99 else "undeclared"
+            counts.setdefault("type_outcomes", {})
+            counts["type_outcomes"][tname] = counts["type_outcomes"].get(tname, 0) + 1
             payload = {"kind": "fuzz", "string": s, "language": gl.describe(), "impl": icode, "impl_info": str(iobs),
                        "model": CODENAME.get(to[0]), "call": "Language.parse_type(string)"}
             if icode == 99:
